@@ -21,19 +21,31 @@ def main():
     if "--target-only" in sys.argv:
         sys.argv.remove("--target-only")
         PROPS = None
-    ids = sys.argv[1:] or sorted(os.listdir(os.path.join(VERIF, "seeded")))
+    if "--scratch" in sys.argv:
+        sys.argv = [a for a in sys.argv if a != "--scratch"] + ["--scratch"]
+    ids = [a for a in sys.argv[1:] if a != "--scratch"] or sorted(os.listdir(os.path.join(VERIF, "seeded")))
     ids = [i for i in ids if os.path.exists(os.path.join(VERIF, "seeded", i, "patch.diff"))]
-    if sh("git", "-C", "/repo", "status", "--porcelain", "--untracked-files=no").stdout.strip():
+    if "--scratch" not in sys.argv and sh("git", "-C", "/repo", "status", "--porcelain", "--untracked-files=no").stdout.strip():
         print("/repo is not clean"); sys.exit(2)
+    scratch = "--scratch" in sys.argv
     for sid in ids:
         d = os.path.join(VERIF, "seeded", sid)
-        r = sh("git", "-C", "/repo", "apply", os.path.join(d, "patch.diff"))
+        repo_args = []
+        if scratch:
+            # a scratch copy of /repo's sources with the change applied (used while other work needs /repo untouched)
+            import tempfile, shutil
+            tree = tempfile.mkdtemp(prefix="cao-seed-")
+            subprocess.run("git -C /repo archive HEAD | tar -x -C %s" % tree, shell=True, check=True)
+            r = sh("patch", "-p1", "-s", "--no-backup-if-mismatch", "-i", os.path.join(d, "patch.diff"), cwd=tree)
+            repo_args = ["--repo", tree]
+        else:
+            r = sh("git", "-C", "/repo", "apply", os.path.join(d, "patch.diff"))
         if r.returncode:
-            print(sid, "patch does not apply:", r.stderr.strip()); continue
+            print(sid, "patch does not apply:", (r.stderr + r.stdout).strip()); continue
         out = {"seed": sid, "reported": {}, "errors": {}}
         try:
             for p in (PROPS or [sid.split("-")[0]]):
-                r = sh(os.path.join(VERIF, "check"), p, "--no-evidence", "--json", cwd=VERIF)
+                r = sh(os.path.join(VERIF, "check"), p, "--no-evidence", "--json", *repo_args, cwd=VERIF)
                 keys = []
                 try:
                     j = json.loads(r.stdout)
@@ -45,7 +57,10 @@ def main():
                 if r.returncode == 2 and p not in out["errors"]:
                     out["errors"][p] = "exit 2: " + (r.stdout + r.stderr)[-300:]
         finally:
-            sh("git", "-C", "/repo", "checkout", "--", ".")
+            if scratch:
+                shutil.rmtree(tree, ignore_errors=True)
+            else:
+                sh("git", "-C", "/repo", "checkout", "--", ".")
         if PROPS is None and os.path.exists(os.path.join(d, "checks.json")):
             # keep what other properties reported at the last full run
             old = json.load(open(os.path.join(d, "checks.json")))
